@@ -153,7 +153,10 @@ def main(argv):
             preflight.append({'check': spec_, 'status': r.get('status'), 'what': r.get('what'),
                               'message': r.get('message'), 'wall_s': r.get('wall_s')})
             if r.get('status') != 'ok':
-                pre_errors.append('preflight %s failed: %s' % (spec_, r.get('message')))
+                if 'DoubleUnsupported' in (r.get('message') or ''):
+                    preflight[-1]['status'] = 'unsupported'
+                else:
+                    pre_errors.append('preflight %s failed: %s' % (spec_, r.get('message')))
 
     # ---- phase 1: discharge ------------------------------------------------
     jobs = []   # (key, ob, kind, kwargs)
@@ -258,7 +261,11 @@ def main(argv):
             rp = rres.get((ob.oid, 'main', 'replay'), {})
             lf = rres.get((ob.oid, 'main', 'lift')) if ob.lift else None
             row['replay'] = rp.get('how')
-            if rp.get('status') != 'reproduced':
+            if rp.get('status') == 'unsupported':
+                # the code under test used a facility the environment double does not model: undecided
+                row['status'] = 'inconclusive'
+                notes.append('%s: inconclusive - %s' % (ob.oid, rp.get('how')))
+            elif rp.get('status') != 'reproduced':
                 harness_errors.append('%s: counterexample %s does not reproduce concretely (%s)'
                                       % (ob.oid, main_r.get('call'), rp.get('how') or rp.get('message')))
             elif lf is not None and lf.get('status') != 'reproduced':
